@@ -77,7 +77,8 @@ VTT_SETTINGS = ["vertical:rl", "vertical:lr", "line:0", "line:-1", "line:50%", "
                 "position:", "size:200%", "vertical:", ":", "a:b:c"]
 VTT_TAGS = [("<b>", "</b>"), ("<i>", "</i>"), ("<u>", "</u>"), ("<c.red>", "</c>"), ("<c.bg_blue.yellow>", "</c>"), ("<c>", "</c>"),
             ("<v Fred>", "</v>"), ("<v.loud Mary Jane>", "</v>"), ("<lang en>", "</lang>"), ("<lang>", "</lang>"), ("<x>", "</x>"),
-            ("<c.nocolor>", "</c>"), ("<b.cls title>", "</b>")]
+            ("<c.nocolor>", "</c>"), ("<b.cls title>", "</b>"), ("<v Tom &amp; Jerry>", "</v>"), ("<v A&bogus;B>", "</v>"), ("<v R&amp>", "</v>"),
+            ("<c.red\tnote>", "</c>"), ("<c.white.bg_black\x0cx>", "</c>"), ("<i.>", "</i>"), ("<c..red>", "</c>"), ("<v  >", "</v>"), ("<lang fr-CA>", "</lang>")]
 
 
 def _vtt_text(rng, begin_ms, end_ms, depth=0, in_ruby=False):
